@@ -1273,6 +1273,12 @@ def build_operator_operand_fixup(capture_error_state):
             # element by element, an error is an error for each element
             return array_fixup(left_op, op, right_op)
 
+        if isinstance(left_op, np.generic):
+            # numpy scalars (results of SLOPE, FORECAST...) are plain numbers
+            left_op = left_op.item()
+        if isinstance(right_op, np.generic):
+            right_op = right_op.item()
+
         if left_op in ERROR_CODES:
             return left_op
 
